@@ -5,6 +5,7 @@ package main
 import (
 	"fmt"
 	"go/ast"
+	"os"
 	"go/token"
 	"go/types"
 	"runtime/debug"
@@ -233,6 +234,16 @@ func (w *World) VerifyFunc(fi *FuncInfo, c *Contract, opts VerifyOpts) (res *Uni
 				}
 			}
 			q.oldHeap, q.oldGen = entryHeap, ""
+			if os.Getenv("GOVC_DEBUG") != "" {
+				var ks []string
+				for k, t := range q.heap {
+					if strings.HasPrefix(k, "ghost:cnt") {
+						ks = append(ks, k+"="+t)
+					}
+				}
+				sort.Strings(ks)
+				fmt.Fprintf(os.Stderr, "DEBUG return path: events=%d %v\n", len(q.events), ks)
+			}
 			for _, l := range c.Lets {
 				q.names[l.Name] = ex.evalClauseValue(q, l.E)
 			}
